@@ -111,14 +111,14 @@ theorem hedge_preserves (pos n : Nat) (co : List Cond) (inner : Layer) (hi : Pre
   | succ f ih =>
     intro k d b r res r' h hs
     simp only [hedgeLoop] at h
-    have hs0 : Stats (if (k == 0) = true then { r with hedgeAttempt := false } else ({ r with attempts := r.attempts + 1, hedges := r.hedges + 1, hedgeAttempt := true }).emit "hp.onHedge" pos) := by
+    have hs0 : Stats (if (k == 0) = true then { r with hedgeAttempt := false, hpLast := r.last } else ({ r with attempts := r.attempts + 1, hedges := r.hedges + 1, hedgeAttempt := true, last := r.hpLast }).emit "hp.onHedge" pos) := by
       split
       · exact hs
       · show _ = _
         simp only [Run.emit]
         have : r.attempts = 1 + r.retries + r.hedges := hs
         omega
-    generalize (if (k == 0) = true then { r with hedgeAttempt := false } else ({ r with attempts := r.attempts + 1, hedges := r.hedges + 1, hedgeAttempt := true }).emit "hp.onHedge" pos) = r0 at h hs0
+    generalize (if (k == 0) = true then { r with hedgeAttempt := false, hpLast := r.last } else ({ r with attempts := r.attempts + 1, hedges := r.hedges + 1, hedgeAttempt := true, last := r.hpLast }).emit "hp.onHedge" pos) = r0 at h hs0
     have hsd : Stats { r0 with script := List.drop 1 r0.script, inv := r0.inv + 1 } := hs0
     cases hin : inner r0 with
     | none =>
@@ -164,7 +164,15 @@ theorem applyPolicy_preserves (fuel pos : Nat) (p : Policy) (inner : Layer) (hi 
     Preserves (applyPolicy fuel pos p inner) := by
   cases p with
   | retry m rl h a => exact retry_preserves pos m rl h a inner hi fuel
-  | hedge n co => exact hedge_preserves pos n co inner hi _ _ _ _
+  | hedge n co =>
+    intro r res r' hh hs
+    simp only [applyPolicy] at hh
+    cases hl : hedgeLoop pos n co inner (n + 2) 0 0 0 r with
+    | none => simp [hl] at hh
+    | some x =>
+      simp only [hl, Option.map_some, Option.some.injEq, Prod.mk.injEq] at hh
+      obtain ⟨_, rfl⟩ := hh
+      exact hedge_preserves pos n co inner hi _ _ _ _ r x.1 x.2 hl hs
   | breaker id h =>
     intro r res r' hh hs
     simp only [applyPolicy] at hh
